@@ -505,13 +505,13 @@ Proof.
 Qed.
 
 (* C06 for the streaming writer's files: the file parses into a tree, and that tree serialises to the identical
-   bytes (and is a fixed point).  [metas_encoded s0 cs] (RoundTripSim.v): at every write_meta an encoding is in
-   force; added with the fix of write_meta (see C01_round_trip / C05_full: with none in force the JSON is written
-   and read back as bytes, outside what [oracle_ok] and DomSpec.expected_view describe). *)
+   bytes (and is a fixed point).  [metas_oracle_ok orc s0 cs] (RoundTrip.v): at every write_meta an encoding is in
+   force, or the oracle answers for the JSON bytes; added with the fix of write_meta (see C01_round_trip: with no
+   encoding in force the JSON is written and read back as bytes, and json.loads is asked about bytes). *)
 Theorem C06_canonical : forall enc0 ver s0 cs orc,
   writer_init enc0 ver = (s0, Ok tt) -> enc_ok enc0 ->
   Forall call_good cs -> Forall indent_explicit cs -> accepted s0 cs ->
-  metas_encoded s0 cs -> guesses_ok s0 cs -> oracle_ok orc cs ->
+  metas_oracle_ok orc s0 cs -> guesses_ok s0 cs -> oracle_ok orc cs ->
   (Z.of_nat (length (w_out (snd (run_calls s0 cs)))) <= sys_maxsize)%Z ->
   exists t', dom_read orc (w_out (snd (run_calls s0 cs))) = Ok t' /\
              dom_write t' = Ok (w_out (snd (run_calls s0 cs))) /\ normalise t' = t' /\
@@ -524,7 +524,7 @@ Proof.
   { intros cs' Hc'. rewrite T1 in Hc'. injection Hc' as <-. exact Ho. }
   assert (Htg : tree_guesses_ok t0).
   { intros s0' cs' Hi' Hc'. rewrite T1 in Hc'. injection Hc' as <-. rewrite T5, T6, Hinit in Hi'. injection Hi' as <-. exact Hgs. }
-  assert (Htm : tree_metas_encoded t0).
+  assert (Htm : tree_metas_oracle_ok orc t0).
   { intros s0' cs' Hi' Hc'. rewrite T1 in Hc'. injection Hc' as <-. rewrite T5, T6, Hinit in Hi'. injection Hi' as <-. exact Hme. }
   destruct (C06_full orc t0 _ T2 T3 T4 Hw Hto Htm Htg Hsz) as (t' & R1 & R2 & R3 & R4 & R5).
   exists t'. repeat (split; [assumption|]). exists t0. split; assumption.
@@ -535,7 +535,7 @@ Qed.
 Theorem C06_canonical_aligned : forall enc0 ver s0 cs orc,
   writer_init enc0 ver = (s0, Ok tt) -> enc_aligned enc0 ->
   Forall call_good cs -> Forall (fun c => enc_aligned (call_enc c)) cs -> Forall indent_explicit cs -> accepted s0 cs ->
-  metas_encoded s0 cs -> oracle_ok orc cs ->
+  metas_oracle_ok orc s0 cs -> oracle_ok orc cs ->
   (Z.of_nat (length (w_out (snd (run_calls s0 cs)))) <= sys_maxsize)%Z ->
   exists t', dom_read orc (w_out (snd (run_calls s0 cs))) = Ok t' /\
              dom_write t' = Ok (w_out (snd (run_calls s0 cs))) /\ normalise t' = t' /\
@@ -566,7 +566,7 @@ Example ex_C06_canonical :
              exists t0, tree_calls t0 = Ok SE.ex_cs /\ t' = normalise t0.
 Proof.
   exact (C06_canonical SE.ex_enc0 SE.ex_ver SE.ex_s0 SE.ex_cs SE.ex_orc SE.ex_init SE.ex_enc0_ok SE.ex_good
-           ex_indent_explicit SE.ex_accepted SE.ex_metas SE.ex_guesses SE.ex_oracle SE.ex_size).
+           ex_indent_explicit SE.ex_accepted SE.ex_metas_oracle SE.ex_guesses SE.ex_oracle SE.ex_size).
 Qed.
 
 (* the restriction on indent is needed: write_preamble(indent=None) writes the text unindented and no indent
